@@ -21,6 +21,9 @@ pub type Res<T> = Result<T, WireError>;
 
 pub const VARINT_MAX: u64 = (1 << 62) - 1;
 
+/// implementation limit documented for the private DC_STATELESS_RESET_TOKENS frame
+pub const DC_MAX_TOKENS: u64 = 4092;
+
 /// RFC 9000 section 16. Returns (value, encoded length).
 pub fn varint(b: &[u8]) -> Res<(u64, usize)> {
     let first = *b.first().ok_or(WireError::Truncated)?;
@@ -263,11 +266,48 @@ impl Frame {
     }
 }
 
+/// Things a *lenient* parse noticed. RFC 9000 attaches a connection error to
+/// these conditions but does not say which layer has to raise it (the frame
+/// codec or the code that acts on the frame), or merely allows rejecting them.
+/// `frame()` / `frames()` turn the first note into a hard `Invalid` error;
+/// `frame_ex()` keeps parsing so that a layout comparison can still check every
+/// field when the decoder under test chose to accept the frame.
+#[derive(Clone, Copy, Debug, Default, PartialEq, Eq)]
+pub struct Notes {
+    /// first value constraint that was violated (None: none)
+    pub soft: Option<&'static str>,
+    /// the frame type varint was not in its shortest form (RFC 9000 12.4: MAY reject)
+    pub type_non_minimal: bool,
+}
+
+impl Notes {
+    fn soft(&mut self, why: &'static str) {
+        if self.soft.is_none() {
+            self.soft = Some(why);
+        }
+    }
+}
+
 /// Parse one frame at the cursor. PADDING runs are coalesced into one frame.
 pub fn frame(c: &mut Cur) -> Res<Frame> {
+    let mut n = Notes::default();
+    let f = frame_ex(c, &mut n)?;
+    match n.soft {
+        Some(why) => Err(WireError::Invalid(why)),
+        None => Ok(f),
+    }
+}
+
+/// Lenient variant of [`frame`]: structural errors (truncation, unknown type,
+/// negative ACK packet numbers) are still errors, value-constraint violations are
+/// recorded in `notes` and the frame is returned as it is laid out on the wire.
+pub fn frame_ex(c: &mut Cur, notes: &mut Notes) -> Res<Frame> {
     let start = c.pos;
     // RFC 9000 12.4: the frame type is a varint; all standard types fit one byte
     let ty = c.vi()?;
+    if c.pos - start != varint_len(ty) {
+        notes.type_non_minimal = true;
+    }
     let f = match ty {
         0x00 => {
             let mut len = c.pos - start;
@@ -328,14 +368,14 @@ pub fn frame(c: &mut Cur) -> Res<Frame> {
             let offset = c.vi()?;
             let data = c.take_vi_len()?.to_vec();
             if offset + data.len() as u64 > VARINT_MAX {
-                return Err(WireError::Invalid("crypto offset overflow"));
+                notes.soft("crypto offset overflow");
             }
             Frame::Crypto { offset, data }
         }
         0x07 => {
             let token = c.take_vi_len()?.to_vec();
             if token.is_empty() {
-                return Err(WireError::Invalid("empty NEW_TOKEN"));
+                notes.soft("empty NEW_TOKEN");
             }
             Frame::NewToken { token }
         }
@@ -353,7 +393,7 @@ pub fn frame(c: &mut Cur) -> Res<Frame> {
                 r
             };
             if offset + data.len() as u64 > VARINT_MAX {
-                return Err(WireError::Invalid("stream offset overflow"));
+                notes.soft("stream offset overflow");
             }
             Frame::Stream {
                 id,
@@ -372,7 +412,7 @@ pub fn frame(c: &mut Cur) -> Res<Frame> {
         0x12 | 0x13 => {
             let max = c.vi()?;
             if max > 1 << 60 {
-                return Err(WireError::Invalid("MAX_STREAMS above 2^60"));
+                notes.soft("MAX_STREAMS above 2^60");
             }
             Frame::MaxStreams {
                 bidi: ty == 0x12,
@@ -387,7 +427,7 @@ pub fn frame(c: &mut Cur) -> Res<Frame> {
         0x16 | 0x17 => {
             let limit = c.vi()?;
             if limit > 1 << 60 {
-                return Err(WireError::Invalid("STREAMS_BLOCKED above 2^60"));
+                notes.soft("STREAMS_BLOCKED above 2^60");
             }
             Frame::StreamsBlocked {
                 bidi: ty == 0x16,
@@ -398,14 +438,14 @@ pub fn frame(c: &mut Cur) -> Res<Frame> {
             let seq = c.vi()?;
             let retire_prior_to = c.vi()?;
             let len = c.u8()? as usize;
-            if !(1..=20).contains(&len) {
-                return Err(WireError::Invalid("NEW_CONNECTION_ID length"));
-            }
             let cid = c.take(len)?.to_vec();
             let mut token = [0u8; 16];
             token.copy_from_slice(c.take(16)?);
+            if !(1..=20).contains(&len) {
+                notes.soft("NEW_CONNECTION_ID length");
+            }
             if retire_prior_to > seq {
-                return Err(WireError::Invalid("retire_prior_to above sequence number"));
+                notes.soft("retire_prior_to above sequence number");
             }
             Frame::NewConnectionId {
                 seq,
@@ -448,12 +488,15 @@ pub fn frame(c: &mut Cur) -> Res<Frame> {
             Frame::Datagram { data, has_len }
         }
         0xdc0000 => {
-            // one or more 16-byte tokens to the end of the packet
-            let rest = c.rest();
-            if rest.is_empty() || rest.len() % 16 != 0 {
-                return Err(WireError::Invalid("dc stateless reset tokens length"));
+            // s2n-quic private frame, layout as documented in
+            // quic/s2n-quic-core/src/frame/dc_stateless_reset_tokens.rs:
+            //   Type (i) = 0xdc0000, Count (i), Stateless Reset Tokens [(128)] x Count
+            let count = c.vi()?;
+            if count > ((c.b.len() - c.pos) / 16) as u64 {
+                return Err(WireError::Truncated);
             }
-            let tokens = rest
+            let tokens = c
+                .take(count as usize * 16)?
                 .chunks(16)
                 .map(|t| {
                     let mut a = [0u8; 16];
@@ -461,7 +504,12 @@ pub fn frame(c: &mut Cur) -> Res<Frame> {
                     a
                 })
                 .collect();
-            c.pos = c.b.len();
+            if count == 0 {
+                notes.soft("dc stateless reset tokens: zero tokens");
+            }
+            if count > DC_MAX_TOKENS {
+                notes.soft("dc stateless reset tokens: more than the implementation limit");
+            }
             Frame::DcStatelessResetTokens { tokens }
         }
         0xdc0002 => Frame::MtuProbingComplete { mtu: c.u16()? },
@@ -478,6 +526,216 @@ pub fn frames(payload: &[u8]) -> Res<Vec<Frame>> {
         out.push(frame(&mut c)?);
     }
     Ok(out)
+}
+
+// ---------------------------------------------------------------------------
+// Reference frame encoder (used by the layout / round-trip oracle of C05).
+
+/// numeric frame type of `f` as it has to appear on the wire
+pub fn frame_type(f: &Frame) -> u64 {
+    match f {
+        Frame::Padding { .. } => 0x00,
+        Frame::Ping => 0x01,
+        Frame::Ack { ecn, .. } => {
+            if ecn.is_some() {
+                0x03
+            } else {
+                0x02
+            }
+        }
+        Frame::ResetStream { .. } => 0x04,
+        Frame::StopSending { .. } => 0x05,
+        Frame::Crypto { .. } => 0x06,
+        Frame::NewToken { .. } => 0x07,
+        Frame::Stream {
+            fin,
+            has_len,
+            has_off,
+            ..
+        } => 0x08 | (*has_off as u64) << 2 | (*has_len as u64) << 1 | *fin as u64,
+        Frame::MaxData { .. } => 0x10,
+        Frame::MaxStreamData { .. } => 0x11,
+        Frame::MaxStreams { bidi, .. } => {
+            if *bidi {
+                0x12
+            } else {
+                0x13
+            }
+        }
+        Frame::DataBlocked { .. } => 0x14,
+        Frame::StreamDataBlocked { .. } => 0x15,
+        Frame::StreamsBlocked { bidi, .. } => {
+            if *bidi {
+                0x16
+            } else {
+                0x17
+            }
+        }
+        Frame::NewConnectionId { .. } => 0x18,
+        Frame::RetireConnectionId { .. } => 0x19,
+        Frame::PathChallenge { .. } => 0x1a,
+        Frame::PathResponse { .. } => 0x1b,
+        Frame::ConnectionClose { transport, .. } => {
+            if *transport {
+                0x1c
+            } else {
+                0x1d
+            }
+        }
+        Frame::HandshakeDone => 0x1e,
+        Frame::Datagram { has_len, .. } => 0x30 | *has_len as u64,
+        Frame::DcStatelessResetTokens { .. } => 0xdc0000,
+        Frame::MtuProbingComplete { .. } => 0xdc0002,
+    }
+}
+
+/// Encode `f` exactly as RFC 9000 section 19 lays it out. `pick_len(value)` chooses the
+/// number of bytes (1/2/4/8, at least `varint_len(value)`) for every varint *field*; the
+/// frame type always uses its shortest form (RFC 9000 12.4).
+///
+/// Panics when `f` cannot be represented (ACK ranges not strictly descending with a gap,
+/// STREAM without OFF bit but a non-zero offset, a field above 2^62-1).
+pub fn put_frame_with(out: &mut Vec<u8>, f: &Frame, pick_len: &mut dyn FnMut(u64) -> usize) {
+    let mut vi = |out: &mut Vec<u8>, v: u64| {
+        let l = pick_len(v);
+        put_varint_len(out, v, l)
+    };
+    if let Frame::Padding { len } = f {
+        out.resize(out.len() + *len, 0);
+        return;
+    }
+    put_varint(out, frame_type(f));
+    match f {
+        Frame::Padding { .. } => unreachable!(),
+        Frame::Ping | Frame::HandshakeDone => {}
+        Frame::Ack {
+            largest,
+            delay,
+            ranges,
+            ecn,
+        } => {
+            assert!(!ranges.is_empty() && ranges[0].1 == *largest);
+            vi(out, *largest);
+            vi(out, *delay);
+            vi(out, ranges.len() as u64 - 1);
+            let (mut smallest, hi) = ranges[0];
+            assert!(smallest <= hi);
+            vi(out, hi - smallest);
+            for (lo, hi) in &ranges[1..] {
+                assert!(lo <= hi && *hi + 2 <= smallest);
+                vi(out, smallest - *hi - 2);
+                vi(out, *hi - *lo);
+                smallest = *lo;
+            }
+            if let Some((a, b, c)) = ecn {
+                vi(out, *a);
+                vi(out, *b);
+                vi(out, *c);
+            }
+        }
+        Frame::ResetStream {
+            id,
+            code,
+            final_size,
+        } => {
+            vi(out, *id);
+            vi(out, *code);
+            vi(out, *final_size);
+        }
+        Frame::StopSending { id, code } => {
+            vi(out, *id);
+            vi(out, *code);
+        }
+        Frame::Crypto { offset, data } => {
+            vi(out, *offset);
+            vi(out, data.len() as u64);
+            out.extend_from_slice(data);
+        }
+        Frame::NewToken { token } => {
+            vi(out, token.len() as u64);
+            out.extend_from_slice(token);
+        }
+        Frame::Stream {
+            id,
+            offset,
+            data,
+            has_len,
+            has_off,
+            ..
+        } => {
+            vi(out, *id);
+            if *has_off {
+                vi(out, *offset);
+            } else {
+                assert_eq!(*offset, 0);
+            }
+            if *has_len {
+                vi(out, data.len() as u64);
+            }
+            out.extend_from_slice(data);
+        }
+        Frame::MaxData { max } => vi(out, *max),
+        Frame::MaxStreamData { id, max } => {
+            vi(out, *id);
+            vi(out, *max);
+        }
+        Frame::MaxStreams { max, .. } => vi(out, *max),
+        Frame::DataBlocked { limit } => vi(out, *limit),
+        Frame::StreamDataBlocked { id, limit } => {
+            vi(out, *id);
+            vi(out, *limit);
+        }
+        Frame::StreamsBlocked { limit, .. } => vi(out, *limit),
+        Frame::NewConnectionId {
+            seq,
+            retire_prior_to,
+            cid,
+            token,
+        } => {
+            vi(out, *seq);
+            vi(out, *retire_prior_to);
+            assert!(cid.len() < 256);
+            out.push(cid.len() as u8);
+            out.extend_from_slice(cid);
+            out.extend_from_slice(token);
+        }
+        Frame::RetireConnectionId { seq } => vi(out, *seq),
+        Frame::PathChallenge { data } | Frame::PathResponse { data } => {
+            out.extend_from_slice(data)
+        }
+        Frame::ConnectionClose {
+            code,
+            frame_type,
+            reason,
+            transport,
+        } => {
+            vi(out, *code);
+            assert_eq!(*transport, frame_type.is_some());
+            if let Some(t) = frame_type {
+                vi(out, *t);
+            }
+            vi(out, reason.len() as u64);
+            out.extend_from_slice(reason);
+        }
+        Frame::Datagram { data, has_len } => {
+            if *has_len {
+                vi(out, data.len() as u64);
+            }
+            out.extend_from_slice(data);
+        }
+        Frame::DcStatelessResetTokens { tokens } => {
+            vi(out, tokens.len() as u64);
+            for t in tokens {
+                out.extend_from_slice(t);
+            }
+        }
+        Frame::MtuProbingComplete { mtu } => out.extend_from_slice(&mtu.to_be_bytes()),
+    }
+}
+
+/// canonical encoding: every varint in its shortest form
+pub fn put_frame(out: &mut Vec<u8>, f: &Frame) {
+    put_frame_with(out, f, &mut varint_len)
 }
 
 // ---------------------------------------------------------------------------
@@ -517,12 +775,52 @@ pub enum Header {
     },
 }
 
+/// What a lenient header parse noticed (see [`header_ex`]).
+#[derive(Clone, Copy, Debug, Default, PartialEq, Eq)]
+pub struct HeaderNotes {
+    /// first reason a receiver may (or, for version 1, must at some layer) drop the
+    /// packet although its structure could be parsed
+    pub soft: Option<&'static str>,
+}
+
+impl HeaderNotes {
+    fn soft(&mut self, why: &'static str) {
+        if self.soft.is_none() {
+            self.soft = Some(why);
+        }
+    }
+}
+
+/// length of the Retry Integrity Tag (RFC 9000 17.2.5)
+pub const RETRY_TAG_LEN: usize = 16;
+
 /// Parse the first packet of `b`. `short_dcid_len` is the receiver's connection-id length.
 pub fn header(b: &[u8], short_dcid_len: usize) -> Res<Header> {
+    let mut n = HeaderNotes::default();
+    let h = header_ex(b, short_dcid_len, &mut n)?;
+    match n.soft {
+        // historical behaviour of this function: only the version-1 connection-id bound is
+        // enforced, the other notes are advisory
+        Some(why @ ("dcid longer than 20" | "scid longer than 20")) => {
+            Err(WireError::Invalid(why))
+        }
+        _ => Ok(h),
+    }
+}
+
+/// Lenient variant of [`header`]: returns the fields as laid out even when the packet is one
+/// that RFC 9000 tells the receiver to drop (fixed bit clear, connection id longer than 20
+/// bytes in a non-version-negotiation long header, Retry without token, ...), and says so in
+/// `notes`. For Retry, `token` holds everything after the SCID *including* the 16-byte
+/// integrity tag (at least `RETRY_TAG_LEN` bytes are required).
+pub fn header_ex(b: &[u8], short_dcid_len: usize, notes: &mut HeaderNotes) -> Res<Header> {
     let mut c = Cur::new(b);
     let first = c.u8()?;
     if first & 0x80 == 0 {
         // short header
+        if first & 0x40 == 0 {
+            notes.soft("fixed bit clear");
+        }
         let dcid = c.take(short_dcid_len)?.to_vec();
         return Ok(Header::Short {
             dcid,
@@ -531,17 +829,22 @@ pub fn header(b: &[u8], short_dcid_len: usize) -> Res<Header> {
     }
     let version = c.u32()?;
     let dlen = c.u8()? as usize;
-    if version != 0 && dlen > 20 {
-        return Err(WireError::Invalid("dcid longer than 20"));
-    }
     let dcid = c.take(dlen)?.to_vec();
     let slen = c.u8()? as usize;
-    if version != 0 && slen > 20 {
-        return Err(WireError::Invalid("scid longer than 20"));
-    }
     let scid = c.take(slen)?.to_vec();
     if version == 0 {
+        // RFC 9000 17.2.1: the remaining bits of the first byte are unused, connection ids
+        // may be longer than 20 bytes, Supported Version (32) ...
+        if dlen > 20 || slen > 20 {
+            notes.soft("version negotiation with a connection id longer than 20");
+        }
         let rest = c.rest();
+        if rest.len() < 4 {
+            notes.soft("version negotiation without a version");
+        }
+        if rest.len() % 4 != 0 {
+            notes.soft("version negotiation with trailing bytes");
+        }
         let versions = rest
             .chunks_exact(4)
             .map(|v| u32::from_be_bytes([v[0], v[1], v[2], v[3]]))
@@ -552,6 +855,15 @@ pub fn header(b: &[u8], short_dcid_len: usize) -> Res<Header> {
             versions,
         });
     }
+    if first & 0x40 == 0 {
+        notes.soft("fixed bit clear");
+    }
+    if dlen > 20 {
+        notes.soft("dcid longer than 20");
+    }
+    if slen > 20 {
+        notes.soft("scid longer than 20");
+    }
     let ty = match (first >> 4) & 0x3 {
         0 => LongType::Initial,
         1 => LongType::ZeroRtt,
@@ -559,6 +871,12 @@ pub fn header(b: &[u8], short_dcid_len: usize) -> Res<Header> {
         _ => LongType::Retry,
     };
     if ty == LongType::Retry {
+        if c.rest().len() < RETRY_TAG_LEN {
+            return Err(WireError::Truncated);
+        }
+        if c.rest().len() == RETRY_TAG_LEN {
+            notes.soft("retry with an empty token");
+        }
         return Ok(Header::Long {
             ty,
             version,
